@@ -14,8 +14,28 @@ ASSUMPTIONS = ["the judge is model code outside the tied model of the crate (lea
 _st = {"an": [], "neg": []}
 
 
+IMPL_SHARDS = 16
+
+
+def weight(line):
+    if line.startswith("@impl scan::judgemany"):
+        return int(line.split()[4])
+    return 1
+
+
 def requests(tier, rng):
-    return [K.keygen(s, bytes(rng.randrange(256) for _ in range(32))) for s in K.SETS]
+    L = [K.keygen(s, bytes(rng.randrange(256) for _ in range(32))) for s in K.SETS]
+    # volume on the implementation (harness/src/judge.rs): under one generated key per set, sign many messages and re-derive
+    # with the secret key the quantities the rejection tests are about (y = z - c s1 a mask, |LowBits(Ay - c s2)| < gamma2 - beta
+    # with the high bits of Ay, |c t0| < gamma2, |z| < gamma1 - beta, the hint vector = MakeHint bit for bit, <= omega ones);
+    # Decompose / MakeHint / the bounds are recomputed from the definitions with plain integers. A margin that is wrong by
+    # a few units shows once in 10^4..10^5 signatures.
+    chunk = 3000 if tier == "quick" else 30000
+    for s in K.SETS:
+        seed = K.hx(bytes(rng.randrange(256) for _ in range(32)))
+        for c in range(16):
+            L.append("@impl scan::judgemany %s %s %d %d" % (s, seed, chunk, c * chunk))
+    return L
 
 
 def followup(stage, lines, model, checked, release, tier, rng):
@@ -82,6 +102,12 @@ def violated_all(lines, model, checked, release):
     out = []
     neg = dict(_st.get("negan", []))
     for i, l in enumerate(lines):
+        if l.startswith("@impl scan::judgemany "):
+            t = l.split()
+            for prof, ans in (("checked", checked), ("wrapping", release)):
+                if ans[i] != "ok judged=%s bad=-" % t[4]:
+                    out.append((i, "%s build: %s signatures of messages %s.. under the key of seed %s: %s" % (prof, t[2], t[5], t[3][:16], ans[i][:120])))
+                    break
         if l.startswith("@model analyze "):
             if l in neg:
                 want = {"z-over": "z-norm", "r0-skip": "lowbits-norm"}[neg[l]]
